@@ -209,7 +209,7 @@ def main():
         "proof_ok": proof_ok, "proof_problem": proof_problem,
         "print_assumptions_closed": pr.get("closed"),
         "coqchk": pr.get("coqchk"),
-        "correspondence": [{k: r.get(k) for k in ("family", "total", "agree", "unmodelled", "nontrivial_distinct", "model_error")}
+        "correspondence": [{k: r.get(k) for k in ("family", "total", "agree", "unmodelled", "nontrivial_distinct", "model_error", "extraction_crosscheck")}
                            | {"mismatches": len(r.get("mismatches", []))} for r in corr_results],
         "input_distribution": {"oracle": orc.get("histogram", {}),
                                "correspondence": {r["family"]: r.get("histogram", {}) for r in corr_results}},
